@@ -234,3 +234,191 @@ def sweep(prop, res, m0, series_list, cfgs, key, sample_every=997):
         acc.add(r)
     acc.finish(key)
     return acc
+
+
+# ------------------------------------------------------------------ CLI parts of C04, C11, C20
+
+def oracle_c04(m0, series, cfg, o, after, exp, names, first=0):
+    """rollback inside the driver (failing patch, backups): never aborts, tree and backups as the model says"""
+    v = []
+    seen = set()
+    for c, mode, w in oracle_c05(m0, series, cfg, o, after, exp, names) + (oracle_c08(m0, series, cfg, o, after, exp, names, first) if o.cls in ('0', '1') else []):
+        c = '+'.join(t for t in c.split('+') if not t.startswith('backup='))
+        if (c, mode) not in seen:
+            seen.add((c, mode))
+            v.append((c, mode, w))
+    return v
+
+
+ORACLES['C04'] = oracle_c04
+
+
+def run_c04(tier, seed, res):
+    m0 = tq.initial()
+    base = tq.with_patch_options(tq.enumerate_series(2, 2, allow_after_failure=1), 2)
+    want = ('rename', 'renameH', 'createN', 'createB', 'deleteN', 'deleteB', 'partial', 'partialB', 'chmod', 'chmodH', '-R', 'fill')
+    series = [s for s in base if wsweep.tags_of(s) & set(want)]
+    # a reversed rename is a question of applying (-R honoured for the git rename dialect: C01/C16), not of undoing
+    series = [s for s in series if not any(p.reverse and any(fp.rename for fp in p.fps) for p in s)]
+    if tier == 'quick':
+        series = [s for s in series if any(not p.ok() for p in s) or any(p.reverse for p in s)]
+    cfgs = [{'backup': 'always', 'backup_count': 'all', 'threads': t, 'quiet': True} for t in (1, 2)]
+    acc = sweep('C04', res, m0, series, cfgs, 'cli_rollback_sweep')
+    res.coverage['cli_rollback_series'] = len(series)
+
+
+def fuzzy_series(m0):
+    """all-success series that need fuzz: a context line of the hunk is wrong"""
+    out = []
+    for f in ('f', 'd/g'):
+        for ctx in (1, 2, 3):
+            for side in ('first', 'last'):
+                m = m0.clone()
+                fresh = tq.Fresh()
+                lines, mode = m.t[f]
+                src = list(lines)
+                i = 3
+                j = max(0, i - ctx) if side == 'first' else min(len(lines) - 1, i + ctx)
+                src[j] = b'JUNK'
+                h, _ = tq.mk_hunk(src, i, 'rep', fresh(), ctx)
+                fp = tq.FP('fuzzy%d%s(%s)' % (ctx, side, f), f, f, [h], ok=True, apply=lambda mm: None)
+                out.append([tq.Patch([tq.t_mod(m, fresh, 'e/i')]), tq.Patch([fp, tq.t_mod(m, fresh, 'd/h')])])
+    return out
+
+
+def c20_case(task):
+    m0, series = task
+    d = wsweep.wdir()
+    root = os.path.join(d, 'ws')
+    names = tq.names_for(series)
+    files, patches, lines = tq.workspace_of(m0, series, names)
+    out = {'evals': 0, 'violations': [], 'outcomes': {}, 'nontrivial': 0}
+    runs = []
+    for fz in (0, 1, 2, 3):
+        for threads in (1, 2):
+            ws.make_ws(root, files, patches, lines)
+            o = ws.run_rq(root, ['-a', '-q', '--backup', 'always', '--fuzz', str(fz)], threads=threads, trace=os.path.join(d, 'trace'))
+            snap = ws.snapshot(root)
+            runs.append((fz, threads, o.cls, (tuple(sorted(ws.tree_of(snap).items())), tuple(sorted(ws.pc_of(snap).items())), tuple(sorted(ws.rejects_of(snap).items())))))
+    tags = cls(tags_of(series))
+    for (f1, t1, c1, s1) in runs:
+        if c1 != '0':
+            continue
+        for (f2, t2, c2, s2) in runs:
+            if f2 <= f1 or t1 != t2:
+                continue
+            out['evals'] += 1
+            out['nontrivial'] += 1
+            out['outcomes']['applies-at-%d' % f1] = out['outcomes'].get('applies-at-%d' % f1, 0) + 1
+            if c2 != '0' or s2 != s1:
+                mode = c2 if c2 not in ('0', '1') else ('fails-at-higher-limit' if c2 != '0' else 'different-result-at-higher-limit')
+                out['violations'].append((tags, mode, witness(m0, series, {'goal': ['-a'], 'quiet': True, 'backup': 'always', 'fuzz': f2, 'threads': t2},
+                                                              {'expected': 'identical to the run with --fuzz %d (exit 0)' % f1, 'observed': 'exit %s' % c2}, names)))
+    for (f1, t1, c1, s1) in runs:
+        out['outcomes']['exit-%s-at-fuzz-%d' % (c1, f1)] = out['outcomes'].get('exit-%s-at-fuzz-%d' % (c1, f1), 0) + 1
+    return out
+
+
+def run_c20(tier, seed, res):
+    m0 = tq.initial()
+    base = tq.enumerate_series(2, 1) if tier == 'quick' else tq.enumerate_series(2, 2)
+    series = [s for s in base if all(p.ok() for p in s)]
+    if tier == 'quick':
+        series = series[::3]
+    series += fuzzy_series(m0)
+    acc = wsweep.Acc(res)
+    tasks = [(m0, s) for s in series]
+    for i, r in enumerate(wsweep.pmap(c20_case, tasks)):
+        if i % 97 == 0:
+            r = dict(r)
+            r['sample'] = {'series': tq.describe_series(tasks[i][1]), 'outcomes': r['outcomes']}
+        acc.add(r)
+    acc.finish('cli_fuzz_sweep')
+    res.coverage['cli_series'] = len(series)
+
+
+SERIES_TOKENS = [b'p1.patch', b'p1.patch -p1', b'p1.patch -p', b'p1.patch -pX', b'p1.patch -p99999999999999999999', b'p1.patch -R', b'p1.patch -Rp1', b'p1.patch --bogus',
+                 b'# comment', b'', b'   \t', b'\xff\xfe.patch', b'p\x00.patch', b'missing.patch', b'p1.patch extra words', b'-p1', b'p1.patch -p -1']
+
+
+def c11_case(task):
+    kind, payload, threads = task
+    d = wsweep.wdir()
+    root = os.path.join(d, 'ws')
+    files = {'f': (b'a\nb\nc\n', 0o644), 'g': (b'', 0o644)}
+    good = b'--- a/f\n+++ b/f\n@@ -1,3 +1,3 @@\n a\n-b\n+B\n c\n'
+    if kind == 'patch':
+        ws.make_ws(root, files, {'p1.patch': payload}, ['p1.patch'])
+    else:
+        ws.make_ws(root, files, {'p1.patch': good}, [])
+        with open(os.path.join(root, 'series'), 'wb') as f:
+            f.write(b''.join(l + b'\n' for l in payload))
+    o = ws.run_rq(root, ['-a'], threads=threads, trace=os.path.join(d, 'trace'), timeout=8, mem_limit=4 << 30)
+    out = {'evals': 1, 'violations': [], 'outcomes': {kind + ':exit-' + o.cls: 1}, 'nontrivial': 1 if o.cls == '0' else 0}
+    if o.cls not in ('0', '1'):
+        if kind == 'patch':
+            s = payload.decode('latin-1')
+            big = any(len(n) >= 10 for l in s.splitlines() if l.startswith('@@') for n in ''.join(c if c.isdigit() else ' ' for c in l).split())
+            c = 'hunk-header-with-huge-number' if big else 'token-sequence'
+        else:
+            c = 'series-file'
+        out['violations'].append((c + ('+threads>1' if threads > 1 else '+threads=1'), o.cls,
+                                  {'kind': 'cli', 'files': {k: [common.b2s(v[0]), v[1]] for k, v in files.items()}, 'patches': {'p1.patch': common.b2s(payload if kind == 'patch' else good)},
+                                   'series': ['p1.patch'] if kind == 'patch' else [common.b2s(l) for l in payload], 'args': ['-a'], 'threads': threads, 'expected': 'exit 0 or 1', 'observed': o.cls,
+                                   'stderr': common.b2s(o.err[-300:])}))
+    return out
+
+
+def read_dump(path):
+    import struct
+    out = []
+    with open(path, 'rb') as f:
+        data = f.read()
+    i = 0
+    while i < len(data):
+        idx, n = struct.unpack_from('<II', data, i)
+        out.append(data[i + 8:i + 8 + n])
+        i += 8 + n
+    return out
+
+
+def run_c11(tier, seed, res):
+    import itertools
+    import subprocess
+    d = wsweep.wdir('dump')
+    inputs = []
+    plan = [('seq2', 0, 10 ** 9, 1), ('edits', 0, 10 ** 9, 997 if tier == 'quick' else 97), ('grid', 0, 10 ** 9, 41 if tier == 'quick' else 5)]
+    if tier != 'quick':
+        plan.append(('seq3', 0, 10 ** 9, 7))
+    sizes = {}
+    for sp, a, b, step in plan:
+        f = os.path.join(d, sp + '.bin')
+        p = subprocess.run([common.RQMC, 'c11-dump', sp, str(a), str(b), str(step), f], stdout=subprocess.PIPE)
+        got = read_dump(f)
+        sizes[sp] = {'space': int(p.stdout.decode().strip() or 0), 'run': len(got), 'every': step}
+        inputs += got
+        os.unlink(f)
+    # single-field extremes of the hunk header (each field over the whole grid, others fixed) - always in full
+    grid = ['0', '1', '2', '2147483647', '2147483648', '4294967295', '4294967296', '9223372036854775807', '9223372036854775808', '18446744073709551615', '18446744073709551616', '1' + '0' * 30]
+    for pos in range(4):
+        for g in grid:
+            fld = ['1', '3', '1', '3']
+            fld[pos] = g
+            inputs.append(('--- a/f\n+++ b/f\n@@ -%s,%s +%s,%s @@\n a\n-b\n+B\n c\n' % tuple(fld)).encode())
+    tasks = [('patch', inp, 1 + (i % 2)) for i, inp in enumerate(inputs)]
+    maxlen = 2 if tier == 'quick' else 3
+    for l in range(1, maxlen + 1):
+        for combo in itertools.product(SERIES_TOKENS, repeat=l):
+            tasks.append(('series', list(combo), 1 + (len(tasks) % 2)))
+    acc = wsweep.Acc(res)
+    for i, r in enumerate(wsweep.pmap(c11_case, tasks)):
+        if i % 1999 == 0:
+            r = dict(r)
+            r['sample'] = {'kind': tasks[i][0], 'input': common.b2s(tasks[i][1]) if tasks[i][0] == 'patch' else [common.b2s(x) for x in tasks[i][1]], 'threads': tasks[i][2], 'outcome': sorted(r['outcomes'])}
+        acc.add(r)
+    acc.finish('cli_sweep')
+    res.coverage['cli_spaces'] = sizes
+    res.coverage['cli_series_file_tokens'] = len(SERIES_TOKENS)
+    res.coverage['cli_rule'] = ('the real binary (default verbosity, RLIMIT_AS 4 GiB, 8 s horizon, threads alternating 1/2) on: every token sequence of length <= 2, every k-th element of the edit and grid '
+                               'spaces (k as listed; the lib-level sweep runs them all), each hunk-header field alone over the full boundary grid, and every sequence of <= %d series-file lines over %d tokens '
+                               '(option spellings incl. missing/garbage/overlong arguments, comments, blank and whitespace-only lines, non-UTF-8 and NUL bytes). Oracle: exit class 0 or 1.') % (maxlen, len(SERIES_TOKENS))
